@@ -1,0 +1,11 @@
+//go:build !verif
+
+// Package vhook provides verification hooks. Without the "verif" build tag
+// every hook is an empty function.
+package vhook
+
+// Event records a named event with key/value pairs.
+func Event(name string, kv ...any) {}
+
+// Gate blocks at a named scheduling point while a controller is installed.
+func Gate(point string) {}
